@@ -338,7 +338,8 @@ META = {
     "the five authoritative views call update_cache() before any read and every other reader is a lazy* accessor; "
     "the rebuild condition of the merged map covers aliases, directory mtimes and the $PATH list itself (the last "
     "was missing and has been repaired); specs use the one resolver; no function that (transitively) asks the file "
-    "system carries a memo decorator, and every module-level cache that is filled at run time is a documented one.",
+    "system carries a memo decorator, and every module-level cache that is filled at run time is a documented one; the mtime stamp stored with "
+    "a directory listing is read before the directory is listed (helpers expanded).",
     "note": "Decides the listed structural clauses, not the behaviour. chmod-only changes and read-once directories "
     "remain stale by construction of an mtime-keyed cache: not decided here.",
 }
